@@ -19,6 +19,7 @@ import tempfile
 import time
 
 VERIF = os.path.dirname(os.path.dirname(os.path.abspath(__file__)))
+EVIDENCE_DIR = os.environ.get("VERIF_EVIDENCE_DIR", os.path.join(VERIF, "evidence"))
 REPO = os.environ.get("VERIF_REPO", "/repo")
 TLA_JARS = "/opt/veriftools/tla/tla2tools.jar:/opt/veriftools/tla/CommunityModules-deps.jar"
 GO_CANDIDATES = [
@@ -491,8 +492,12 @@ class Ctx:
 
     def harness_prepare(self):
         h = os.path.join(VERIF, "harness")
-        # go.mod / go.sum follow /repo's (checks rebuild from the working tree)
-        write_harness_mod(h)
+        # go.mod / go.sum follow /repo's (checks rebuild from the working tree);
+        # they live in the scratch dir (-modfile) so concurrent runs never clash
+        md = os.path.join(self.scratch, "gomod")
+        os.makedirs(md, exist_ok=True)
+        write_harness_mod(md)
+        self._modfile = os.path.join(md, "go.mod")
         return h
 
     def go_test(self, pkg, run, env=None, timeout=900, extra_args=(), race=False):
@@ -504,7 +509,7 @@ class Ctx:
         e["VERIF_TIER"] = self.tier
         e["VERIF_REPO"] = REPO
         cmd = [g, "test", "-count=1", "-tags", "verif", "-overlay", self.overlay_file(),
-               "-vet=off", "-timeout", "%ds" % timeout, "-run", run]
+               "-modfile", self._modfile, "-vet=off", "-timeout", "%ds" % timeout, "-run", run]
         if race:
             cmd.append("-race")
         cmd += list(extra_args) + [pkg]
@@ -560,7 +565,7 @@ class Ctx:
                 self.known_hits += 1
                 print("KNOWN-FINDING: property=%s %s" % (self.pid, k.get("what", what)), flush=True)
                 return False
-        os.makedirs(os.path.join(VERIF, "evidence", "replays"), exist_ok=True)
+        os.makedirs(os.path.join(EVIDENCE_DIR, "replays"), exist_ok=True)
         path = os.path.join(VERIF, "evidence", "replays", "%s-%s.json" % (self.pid, dg[:12]))
         with open(path, "w") as f:
             json.dump({"property": self.pid, "seed": self.seed, "tier": self.tier,
@@ -595,8 +600,8 @@ class Ctx:
         }
         if self.known_hits:
             ev["coverage"]["known_findings_hit"] = self.known_hits
-        os.makedirs(os.path.join(VERIF, "evidence"), exist_ok=True)
-        path = os.path.join(VERIF, "evidence", "%s.json" % self.pid)
+        os.makedirs(EVIDENCE_DIR, exist_ok=True)
+        path = os.path.join(EVIDENCE_DIR, "%s.json" % self.pid)
         with open(path, "w") as f:
             json.dump(ev, f, indent=1, default=str)
         validate_evidence(path)
